@@ -203,6 +203,24 @@ func genInputs(c *Ctx) []input {
 		}
 	}
 	out = append(out, input{"shape-changes", shapes})
+	// columns in which nulls and values alternate, nullable nested records, null elements:
+	// every vng column then has a nulls vector next to its values vector(s)
+	var nulls []string
+	for i := 0; i < 12; i++ {
+		a, b, n := fmt.Sprint(i), fmt.Sprintf(`"s%d"`, i), fmt.Sprintf(`{x:%d,y:"%d"}`, i, i)
+		if r.Intn(3) == 0 {
+			a = "null(int64)"
+		}
+		if r.Intn(3) == 0 {
+			b = "null(string)"
+		}
+		if r.Intn(3) == 0 {
+			n = "null({x:int64,y:string})"
+		}
+		nulls = append(nulls, fmt.Sprintf(`{a:%s,b:%s,n:%s,l:[%d,null(int64)]}`, a, b, n, i))
+	}
+	nulls[1] = `{a:null(int64),b:"y",n:{x:1,y:null(string)},l:[null(int64)]}`
+	out = append(out, input{"nulls-in-columns", nulls})
 	for j := 0; j < c.N(3, 25); j++ {
 		var rnd []string
 		n := 1 + r.Intn(30)
